@@ -11,12 +11,14 @@ prop=$(python3 -c "import json;print(json.load(open('$meta'))['property'])")
 demo_path=$(python3 -c "import json;print(json.load(open('$meta'))['demo_path_in_repo'])")
 demo_cmd=$(python3 -c "import json;print(json.load(open('$meta'))['demo_command'])")
 checks=${@:-$prop}
+# the sub-agent's worktree was /tmp/wt-<tag>: the property id for property-oriented rounds, the directory tag (F01...) for file-oriented ones
+tag=${WT_TAG:-$prop}
 wt=/tmp/sev-$name
 rm -rf $wt; git -C /repo worktree prune; git -C /repo worktree add -q --detach $wt HEAD || exit 2
 demo_file=$(ls $src/*_test.go $src/*.go 2>/dev/null | head -1)
-rel=${demo_path#/tmp/wt-$prop/}
+rel=${demo_path#/tmp/wt-$tag/}
 mkdir -p $(dirname $wt/$rel); cp $demo_file $wt/$rel
-cmd=${demo_cmd//\/tmp\/wt-$prop/$wt}
+cmd=${demo_cmd//\/tmp\/wt-$tag/$wt}
 echo "== demo WITHOUT the change (must pass)"; (cd $wt && bash -c "$cmd" >/tmp/sev-$name.nopatch.log 2>&1); rc_without=$?; echo "rc=$rc_without"
 git -C $wt apply $src/patch.diff || { echo "patch does not apply"; git -C /repo worktree remove --force $wt; exit 2; }
 echo "== demo WITH the change (must fail)"; (cd $wt && bash -c "$cmd" >/tmp/sev-$name.patch.log 2>&1); rc_with=$?; echo "rc=$rc_with"
